@@ -182,6 +182,23 @@ func (m *BinaryModel) ResolveDependencies() {
 					}
 				}
 			}
+			m.resolveNested(field)
+		}
+	}
+}
+
+// resolveNested resolves what the loop above does not reach: the packets named by match alternatives.
+func (m *BinaryModel) resolveNested(field *Field) {
+	switch attr := field.Attr.(type) {
+	case *MatchFieldAttribute:
+		for _, pair := range attr.MatchPairs {
+			if _, exists := m.PacketsMap[pair.Value]; !exists {
+				m.AddSyntaxError(&SyntaxError{
+					Line:   pair.Line,
+					Column: pair.Column,
+					Msg:    "Unknown packet type " + pair.Value + " for match field " + field.Name,
+				})
+			}
 		}
 	}
 }
